@@ -874,6 +874,15 @@ class ParameterSet(
             If one of the given parameters is already a fixed parameter.
         """
         fix_params_keys = fix_params.keys()
+
+        # Validate the request before any change is made, so that a rejected
+        # request leaves this parameter set untouched.
+        for param in self._params:
+            if (param.name in fix_params_keys) and (param.isfixed is True):
+                raise ValueError(
+                    f'The parameter "{param.name}" is already a fixed '
+                    'parameter!')
+
         self._fixed_param_name_list = []
         self._floating_param_name_list = []
         self._fixed_param_name_to_idx = dict()
@@ -947,6 +956,18 @@ class ParameterSet(
             return (e, None, None)
 
         float_params_keys = float_params.keys()
+
+        # Validate the request before any change is made, so that a rejected
+        # request leaves this parameter set untouched.
+        for param in self._params:
+            if param.name in float_params_keys:
+                if param.isfixed is False:
+                    raise ValueError(
+                        f'The parameter "{param.name}" is already a floating '
+                        'parameter!')
+                param._get_floating_settings(
+                    *_parse_float_param_dict_entry(float_params[param.name]))
+
         self._fixed_param_name_list = []
         self._floating_param_name_list = []
         self._fixed_param_name_to_idx = dict()
